@@ -3,6 +3,9 @@ C13 — getter API contract of the generated container.
 -/
 import GontainerModel.Model.Compile
 import GontainerModel.Generated.Template
+import GontainerModel.Lemmas.Methods
+import GontainerModel.Lemmas.C11Aux
+import GontainerModel.Lemmas.C13Aux
 namespace GM.C13
 open GM GM.Compile
 
@@ -70,6 +73,26 @@ theorem default_type (st : Imports.St) : (serviceType st none).2 = "interface{}"
 uses is the runtime container's method set plus the embedded field (regenerated tables) -/
 theorem reserved_is_container_api :
     Validate.reservedGetters = Generated.rtContainerMethods ++ Generated.tplStructEmbedded := by decide
+
+/-- the method declarations of the getter template (regenerated): G, GInContext and, only under
+`MustGetter`, MustG, MustGInContext — the scheme `methodNames` states -/
+theorem template_method_forms :
+    Generated.tplGetterMethods = [("", "", false), ("", "InContext", false), ("Must", "", true), ("Must", "InContext", true)] := by decide
+
+/-- all method names the getter template can declare for getters `gs` (every form of the regenerated table) -/
+def allMethodNames (gs : List String) : List String :=
+  gs.flatMap fun g => Generated.tplGetterMethods.map fun m => m.1 ++ g ++ m.2.1
+
+/-- **generated methods never collide**: for every input the validator accepts, the method names the
+template declares — all four forms of every live getter — are pairwise distinct, and none equals a
+method of the runtime container or the embedded field (both regenerated tables).  This is a statement
+about all getter strings: "Must"/"InContext" cannot be produced by concatenation either
+(`GetX` + `InContext` never equals `Must` + `Y`, etc.). -/
+theorem methods_never_collide (i : Input.Input) (hacc : Validate.validateServices i = []) :
+    (allMethodNames (C11.liveGetters (AMap.sorted i.services))).Nodup ∧
+    ∀ x ∈ allMethodNames (C11.liveGetters (AMap.sorted i.services)),
+      x ∉ Generated.rtContainerMethods ++ Generated.tplStructEmbedded :=
+  C13.methods_never_collide_aux i hacc (by unfold allMethodNames; rfl)
 
 -- non-vacuity
 example : (compileGetter (some "GetA") none (some true)).2.1 = true := by decide
